@@ -134,6 +134,28 @@ func (d *deriver) columnIs(v any, t dtok) bool {
 	return d.leafIs(v, t)
 }
 
+// fieldSpan: a field position is a term, possibly inside redundant parentheses: it returns the
+// index of the term token and the index after the span that starts at i.
+func (d *deriver) fieldSpan(i, limit int) (term int, end int, ok bool) {
+	depth := 0
+	for i < limit && symIs(d.t[i], '(') {
+		depth++
+		i++
+	}
+	if i >= limit || d.t[i].kind != tkTerm {
+		return 0, 0, false
+	}
+	term = i
+	i++
+	for k := 0; k < depth; k++ {
+		if i >= limit || !symIs(d.t[i], ')') {
+			return 0, 0, false
+		}
+		i++
+	}
+	return term, i, true
+}
+
 // balanced: t[i] == '(' matches t[j] == ')'.
 func (d *deriver) balanced(i, j int) bool {
 	if !symIs(d.t[i], '(') || !symIs(d.t[j], ')') {
@@ -227,18 +249,19 @@ func (d *deriver) derives(v any, i, j int) bool {
 				return (e.Op == expr.Like) == (r.Op != expr.Literal)
 			}
 		}
-		if j-i < 3 || !d.columnIs(e.Left, d.t[i]) || !(symIs(d.t[i+1], ':') || symIs(d.t[i+1], '=')) {
+		ft, fe, fok := d.fieldSpan(i, j)
+		if !fok || j-fe < 2 || !d.columnIs(e.Left, d.t[ft]) || !(symIs(d.t[fe], ':') || symIs(d.t[fe], '=')) {
 			return false
 		}
 		if e.Op == expr.Like {
 			r := asExpr(e.Right)
-			return r != nil && (r.Op == expr.Wild || r.Op == expr.Regexp) && d.derives(r, i+2, j)
+			return r != nil && (r.Op == expr.Wild || r.Op == expr.Regexp) && d.derives(r, fe+1, j)
 		}
 		r := asExpr(e.Right)
 		if r != nil && (r.Op == expr.Wild || r.Op == expr.Regexp) {
 			return false // a pattern value makes the node a LIKE
 		}
-		return d.derives(e.Right, i+2, j)
+		return d.derives(e.Right, fe+1, j)
 	case expr.Greater, expr.Less, expr.GreaterEq, expr.LessEq:
 		want := byte('>')
 		if e.Op == expr.Less || e.Op == expr.LessEq {
